@@ -496,6 +496,15 @@ def slab_rules(chk, cr):
                 if a and call_name(a) == "numpy.arange" and len(a[2]) == 2:
                     ar[e.name] = (a[2][0], a[2][1])
         b = P.name(ev.param_names[1])
+        if len(ar) != 3:
+            # whatever the three ranges are called (a helper's locals are renamed when it is inlined): three aranges, axis by axis
+            allr = []
+            for e in ev.events:
+                a = e.value.as_atom() if e.kind == "assign" and e.value is not None and not e.loops else None
+                if a and call_name(a) == "numpy.arange" and len(a[2]) == 2 and "[0]" in a[2][0].key():
+                    allr.append((a[2][0], a[2][1]))
+            if len(allr) == 3:
+                ar = dict(zip(("h", "k", "l"), allr))
         ok = len(ar) == 3
         for ax, name in enumerate(("h", "k", "l")):
             if name in ar:
@@ -744,8 +753,20 @@ def exclusion_rules(chk, cr, evs):
             a = e.value.as_atom()
             if a and a[0] == "sub":
                 src[e.name] = a[2][0].key()
-    chk.ob("R03.5", CR, "Crystal." + q, "positions, elements and parent indices are gathered with one ball-query index",
-           len(src) == 3 and len(set(src.values())) == 1 and "query_ball_point" in list(src.values())[0], found=list(src))
+    ok_one = len(src) == 3 and len(set(src.values())) == 1 and "query_ball_point" in list(src.values())[0]
+    if not ok_one and items:
+        # without locals of their own: the reported columns themselves are COLUMN[ball index][keep] with one ball index for all of them
+        balls_ = {}
+        for k, _, v in items:
+            if k == "distance":
+                continue
+            a = v.as_atom()
+            inner = a[1].as_atom() if a and a[0] == "sub" and len(a[2]) == 1 else None
+            if inner and inner[0] == "sub" and len(inner[2]) == 1 and "query_ball_point" in inner[2][0].key():
+                balls_[k] = inner[2][0].key()
+        named = [k for k, _, v in items if k != "distance"]
+        ok_one = len(named) >= 3 and set(balls_) == set(named) and len(set(balls_.values())) == 1
+    chk.ob("R03.5", CR, "Crystal." + q, "positions, elements and parent indices are gathered with one ball-query index", ok_one, found=list(src))
     # the distance that decides what is kept, and that is reported, is |position - centre| of those very positions and of the point the
     # ball was queried around (row-wise norm): a sum instead of the difference, or another axis, reports wrong distances and keeps the centre
     balls = [e for e in ev.events if e.kind == "call" and call_name(e.value.as_atom() or ()) == ".query_ball_point" and e.loops and e.extra.get("args")]
